@@ -921,6 +921,18 @@ Proof.
   unfold th_nbl_step, ren_nbl. apply forallb2_map_both. intros [k b] [k' b']. simpl. rewrite pi_eqb. reflexivity.
 Qed.
 
+Lemma nbrs_ren g m : nbrs (rename pi g) (pi m) = ren_nbl pi (nbrs g m).
+Proof.
+  unfold nbrs, rename. simpl. induction (m_adj g) as [|[k l] r IH]; simpl; auto.
+  rewrite pi_eqb. destruct (m =? k); auto.
+Qed.
+
+Lemma exo_terminal_ren g l : exo_terminal (rename pi g) (ren_nbl pi l) = exo_terminal g l.
+Proof.
+  unfold exo_terminal. induction l as [|[m b] r IH]; simpl; auto.
+  rewrite IH, nbrs_ren. unfold ren_nbl. rewrite map_length. reflexivity.
+Qed.
+
 Theorem kekule_rel_rename : forall g g', kekule_rel (rename pi g) (rename pi g') = kekule_rel g g'.
 Proof.
   intros g g'. unfold kekule_rel, kekule_rel_noh, kekule_rel_core.
@@ -951,8 +963,10 @@ Proof.
   assert (D : tr_doubles (rename pi g) (rename pi g') = tr_doubles g g').
   { unfold tr_doubles, rename. simpl. apply forallb2_map_both. intros [k l] [k' l']. simpl. unfold old_doubles. rewrite moved_ren. reflexivity. }
   assert (Q : tr_quinone (rename pi g) (rename pi g') = tr_quinone g g').
-  { unfold tr_quinone, rename. simpl. apply forallb2_map_both. intros [k l] [k' l']. simpl. unfold gained_arom.
-    rewrite !moved_ren, has_ord_ren. reflexivity. }
+  { unfold tr_quinone. change (m_adj (rename pi g)) with (map (fun nl => (pi (fst nl), ren_nbl pi (snd nl))) (m_adj g)).
+    change (m_adj (rename pi g')) with (map (fun nl => (pi (fst nl), ren_nbl pi (snd nl))) (m_adj g')).
+    apply forallb2_map_both. intros [k l] [k' l']. simpl. unfold gained_arom.
+    rewrite !moved_ren, exo_terminal_ren. reflexivity. }
   assert (H : tr_h (rename pi g) (rename pi g') = tr_h g g').
   { unfold tr_h, rename. simpl. apply forallb2_map_both. intros [k a] [k' a']. reflexivity. }
   rewrite A, B, D, Q, H. reflexivity.
